@@ -16,6 +16,8 @@ from symx.engine import harness
 from symx import shims
 
 import armi.utils as U
+
+from harness._util_C15 import pick
 import armi.utils.mathematics as mathmod
 
 shims.patch(mathmod, float=shims.float_shim)
@@ -77,8 +79,8 @@ SIMPLE_VARIANTS = [dict(lengths="scalar", avail="scalar", pf="default"),
                                  for c in ("default", "list", "repeat")]})
 def simple_history_expansion(ctx, lengths, avail, pf, maxN=3, maxB=3):
     n = int(ctx.int("nCycles", 1, maxN))
-    b = ctx.int("burnSteps", 0, maxB)
-    ctx.assume(OR(b >= 1, n == 1))
+    b = pick(ctx.int("burnSteps", 0, maxB), 0, maxB)   # the code sizes lists with it: concretised here
+    ctx.assume(b >= 1 or n == 1)
     cs = mk_cs(nCycles=n, burnSteps=b)
     L = _expand(ctx, lengths, "L", n, 1.0, 1e4, "cycleLength", "cycleLengths", cs, SIMPLE_DEFAULTS["cycleLength"])
     A = _expand(ctx, avail, "a", n, 0.0, 1.0, "availabilityFactor", "availabilityFactors", cs, 1.0)
@@ -135,7 +137,7 @@ def _detailed_cycle(ctx, i, form, maxM):
         entry["name"] = "cyc%d" % i
         exp["name"] = "cyc%d" % i
     if form == "B":
-        m = ctx.int("m%d" % i, 1, maxM)
+        m = pick(ctx.int("m%d" % i, 1, maxM), 1, maxM)
         L = ctx.real("L%d" % i, 1.0, 1e4)
         entry["burn steps"] = m
         entry["cycle length"] = L
@@ -145,24 +147,26 @@ def _detailed_cycle(ctx, i, form, maxM):
     else:
         mc = int(ctx.int("m%d" % i, 0, maxM))
         exp["m"] = mc
+        # (all maxM values are declared on every path so that the input vector has a fixed shape; the first m count)
         if form == "S":
-            d = [ctx.real("d%d_%d" % (i, k), 1e-2, 1e3) for k in range(mc)]
+            d = [ctx.real("d%d_%d" % (i, k), 1e-2, 1e3) for k in range(maxM)][:mc]
             entry["step days"] = list(d)
             exp["steps"] = d
         elif form == "R":   # step days with a repeat marker: [d0, '<m-1>R']
+            d0 = ctx.real("d%d_0" % i, 1e-2, 1e3)
             if mc == 0:
                 entry["step days"] = []
                 exp["steps"] = []
             else:
-                d0 = ctx.real("d%d_0" % i, 1e-2, 1e3)
                 entry["step days"] = [d0] if mc == 1 else [d0, "%dR" % (mc - 1)]
                 exp["steps"] = [d0] * mc
         elif form == "C":
-            c = [ctx.real("c%d_%d" % (i, k), 0.0, 1e4) for k in range(mc)]
-            prev = 0.0
-            for x in c:
-                ctx.assume(x - prev >= 1e-2)
-                prev = x
+            # increasing cumulative days, built from positive increments (first value may be any day >= 0)
+            inc = [ctx.real("c%d_%d" % (i, k), 0.0 if k == 0 else 1e-2, 1e3) for k in range(maxM)]
+            c, prev = [], 0.0
+            for x in inc[:mc]:
+                prev = prev + x
+                c.append(prev)
             entry["cumulative days"] = list(c)
             exp["steps"] = [c[k] - (c[k - 1] if k else 0.0) for k in range(mc)]
             exp["last"] = c[-1] if c else None
@@ -170,10 +174,8 @@ def _detailed_cycle(ctx, i, form, maxM):
             raise KeyError(form)
     if "p" in flags:
         if mc is None:
-            mc = int(exp["m"])          # concretise the burn-step count to size the power-fraction list
-            exp["m"] = mc
-            entry["burn steps"] = mc
-        pf = [ctx.real("p%d_%d" % (i, k), 0.0, 1.0) for k in range(mc)]
+            mc = exp["m"]
+        pf = [ctx.real("p%d_%d" % (i, k), 0.0, 1.0) for k in range(maxM)][:mc]
         entry["power fractions"] = list(pf)
         exp["pf"] = pf
     return entry, exp
@@ -184,8 +186,8 @@ DETAILED_THOROUGH = DETAILED_QUICK + [("S", "S", "S", "S"), ("Ba", "Ca", "Sa", "
 
 
 @harness("C15", bounds="detailed `cycles` input, 1..3 cycles; per cycle one of: step days (0..3 symbolic lengths in "
-                       "[0.01,1e3]), step days with repeat marker, cumulative days (0..3 increasing values in "
-                       "[0,1e4]), burn steps (1..3) + cycle length [1,1e4]; availability in [0.01,1] and power "
+                       "[0.01,1e3]), step days with repeat marker, cumulative days (0..3 increasing values, "
+                       "increments in [0.01,1e3]), burn steps (1..3) + cycle length [1,1e4]; availability in [0.01,1] and power "
                        "fractions in [0,1] present or absent as enumerated", stubs=STUBS,
          instances={"quick": [dict(forms=f) for f in DETAILED_QUICK],
                     "thorough": [dict(forms=f, maxM=5) for f in DETAILED_THOROUGH]})
@@ -302,7 +304,8 @@ NUM_BOUNDS = ("cycle layouts: simple input (nCycles 1..3, burnSteps 0..3) and de
 def cumulative_node_numbers_enumerate_run_order(ctx, kind, n, maxM):
     cs, ms = _layout(ctx, kind, n, maxM)
     order = [(i, j) for i in range(len(ms)) for j in range(ms[i] + 1)]   # the order a run visits the nodes
-    N = ctx.int("N", 0, len(order) - 1)
+    N = ctx.int("N", 0, n * (maxM + 1) - 1)
+    ctx.assume(N <= len(order) - 1)
     c, k = U.getCycleNodeFromCumulativeNode(N, cs)
     wc, wk = _nth(order, N, 0), _nth(order, N, 1)
     if ctx.canary:
@@ -336,8 +339,8 @@ def cumulative_node_numbers_enumerate_run_order(ctx, kind, n, maxM):
 def cycle_node_to_cumulative_and_back(ctx, kind, n, maxM):
     cs, ms = _layout(ctx, kind, n, maxM)
     order = [(i, j) for i in range(len(ms)) for j in range(ms[i] + 1)]
-    c = ctx.int("c", 0, len(ms) - 1)
-    k = ctx.int("k", 0, max(ms))
+    c = ctx.int("c", 0, n - 1)
+    k = ctx.int("k", 0, maxM)
     ctx.assume(_index_of(order, c, k) >= 0)
     N = U.getCumulativeNodeNum(c, k, cs)
     want = _index_of(order, c, k)
@@ -360,8 +363,8 @@ def cycle_node_to_cumulative_and_back(ctx, kind, n, maxM):
 def cumulative_step_numbers_enumerate_steps(ctx, kind, n, maxM):
     cs, ms = _layout(ctx, kind, n, maxM)
     steps = [(i, j) for i in range(len(ms)) for j in range(ms[i])]   # (cycle, node at the start of the step)
-    ctx.assume(len(steps) >= 1)
-    s = ctx.int("s", 1, len(steps))
+    s = ctx.int("s", 1, n * maxM)
+    ctx.assume(s <= len(steps))
     c, k = U.getCycleNodeFromCumulativeStep(s, cs)
     wc, wk = _nth(steps, s - 1, 0), _nth(steps, s - 1, 1)
     if ctx.canary:
